@@ -181,7 +181,7 @@ func cmdVerify(args []string) {
 		}
 		nobl += ok + bad
 		nok += ok
-		fmt.Printf("%-40s obligations=%d discharged=%d failed=%d  (%s)\n", u.Key, ok+bad, ok, bad, u.File)
+		fmt.Printf("%-40s obligations=%d discharged=%d failed=%d  %.1fs (%s)\n", u.Key, ok+bad, ok, bad, u.PrimaryS, u.File)
 		if *dump != "" {
 			for i, o := range u.Script.obls {
 				if strings.Contains(o.Name, *dump) {
